@@ -88,7 +88,8 @@ def step (st : St) (line : String) : St × String :=
   | ["mk"] =>
     ({ st with nat := some (⟨.created none, false, false⟩, none),
                goi := some (⟨.created none, fun _ => 0, false⟩, none), hooks := none, hsN := {}, hsG := {} }, "ok")
-  | ["hooks", a, b] => ({ st with hooks := some ⟨a == "1", b == "1"⟩, hsN := {}, hsG := {} }, "ok")
+  | ["hooks", a, b] => ({ st with hooks := some ⟨a == "1", b == "1", false⟩, hsN := {}, hsG := {} }, "ok")
+  | ["hooks", a, b, r] => ({ st with hooks := some ⟨a == "1", b == "1", r == "1"⟩, hsN := {}, hsG := {} }, "ok")
   | ["n", "gc"] =>
     match st.nat with
     | some (a, _) => (st, showHk (nativeHookGC st.hsN a))
@@ -125,7 +126,11 @@ def step (st : St) (line : String) : St × String :=
           match st.hooks, args with
           | some h, "call" :: _ =>
             let hk := nativeHookCall h st.hsN a
-            ({ st with nat := some (a', p), hsN := hk.1 }, s ++ " ; " ++ showHk hk.2)
+            if hookRaised h hk.2 then
+              -- the firstiter hook raised: the call failed before touching the generator
+              ({ st with hsN := hk.1 }, repN a (showOut (.raised hookExc)) ++ " ; " ++ showHk hk.2)
+            else
+              ({ st with nat := some (a', p), hsN := hk.1 }, s ++ " ; " ++ showHk hk.2)
           | _, _ => ({ st with nat := some (a', p) }, s)
         | none => (st, "bad-op")
   | "g" :: args =>
@@ -148,7 +153,10 @@ def step (st : St) (line : String) : St × String :=
           match st.hooks with
           | some h =>
             let hk := goiHookCall h st.hsG g
-            ({ st with goi := some (back r.1, p), hsG := hk.1 }, rep r.1 (showOut r.2) ++ " ; " ++ showHk hk.2)
+            if hookRaised h hk.2 then
+              ({ st with hsG := hk.1 }, rep g (showOut (.raised hookExc)) ++ " ; " ++ showHk hk.2)
+            else
+              ({ st with goi := some (back r.1, p), hsG := hk.1 }, rep r.1 (showOut r.2) ++ " ; " ++ showHk hk.2)
           | none => ({ st with goi := some (back r.1, p) }, rep r.1 (showOut r.2))
         | none => (st, "bad-op")
       | ["send", v], some op =>
